@@ -14,3 +14,22 @@ for pid in ('C06', 'C07', 'C08'):
         fa[k] = (fa.get(k, '') + ' || ' + fb.get(k, '')).strip(' |')
     json.dump(fa, open(f'/verif/checks.d/{pid}.json', 'w'), indent=1)
     print(pid, fa['props_modules'])
+
+# re-apply the translator fragment (modules of generated-code theorems) to every property it names
+if tr:
+    for pid, mods in tr.get('add_props_modules', {}).items():
+        p = f'/verif/checks.d/{pid}.json'
+        if not os.path.exists(p):
+            continue
+        c = json.load(open(p))
+        pm = c.get('props_modules', [pid])
+        for m in mods:
+            if m not in pm:
+                pm.append(m)
+        c['props_modules'] = pm
+        for a in tr.get('add_assumptions', []):
+            if a not in c.get('assumptions', []):
+                c.setdefault('assumptions', []).append(a)
+        if tr.get('add_level_note') and tr['add_level_note'] not in c.get('level_note', ''):
+            c['level_note'] = (c.get('level_note', '') + ' ' + tr['add_level_note']).strip()
+        json.dump(c, open(p, 'w'), indent=1)
